@@ -3,7 +3,8 @@ MANIFEST = {
     "engine": "symrun",
     "category": "proof",
     "text": "For the real SRF/Fourier code path: field(x + period_d * main_axis_d) = field(x) for ALL positions, periods, anisotropy ratios, rotation angles, variances, length scales and seeds (symbolic reals), dims 1-3, via the lemma chain isometrised shift (ring normal form over the real matrix_rotate) -> every phase changes by 2 pi * integer (modes proved to lie on the lattice (k - n/2) * 2 pi anis/period) -> cos/sin periodicity instances; also after period / mode_no / model changes through the real update paths. Added after the seeding rounds: period / mode_no lists shorter than the dimension are filled with their last value; updates that pass several settings at once (new period or model together with the unchanged mode numbers)."
-            " Round 7: period and mode numbers are owned by the generator (the caller editing its array afterwards changes nothing).",
+            " Round 7: period and mode numbers are owned by the generator (the caller editing its array afterwards changes nothing)."
+            " A rejected update (odd mode numbers) leaves the generator unchanged (F48 repaired).",
     "level_note": "even mode counts are enumerated (2 and 4 per axis; the argument is per mode and uses only that the lattice index is an integer) -- reported under proof because values are unbounded and the kernel sum is proved for all sizes in C15, with the enumeration stated; np.arange end-point rounding can change the NUMBER of modes in floating point (T1 residue); ghost RNG and kernel postcondition stubs as in C11; cos/sin(a + 2 pi z) = cos/sin a instantiated as hints (T4).",
     "technique": "contract-based deductive verification: symbolic execution of the real Python methods against sidecar postconditions from the docstrings, VCs discharged by z3/cvc5 with instantiated axiom hints",
 }
